@@ -32,7 +32,8 @@ type Job struct {
 	Seed       int64      `json:"seed"`
 	Yield      float64    `json:"yield"`
 	Sched      [][]int    `json:"sched"`
-	Plan       []PlanStep `json:"plan"` // gate replay of a behaviour of the specification: per action the processes to release and those that must finish
+	ReuseEnv   bool       `json:"reuse_env"` // run on the RuntimeEnvironment the previous job of this process used (C19)
+	Plan       []PlanStep `json:"plan"`      // gate replay of a behaviour of the specification: per action the processes to release and those that must finish
 	Trace      bool       `json:"trace"`
 	Dump       bool       `json:"dump"`
 	GraceMs    int        `json:"grace_ms"`
@@ -190,6 +191,12 @@ func runJob(j Job) (res Result) {
 	}
 	re := &process.RuntimeEnvironment{GlobalEnvironment: genv, UseMonitor: j.Monitor, Color: false,
 		ExecutionVersion: version(j.Mode), Typechecked: j.Typecheck, Delay: 0, Quiet: false}
+	if j.ReuseEnv && lastRE != nil {
+		// a host may serve several runs with ONE RuntimeEnvironment (InitializeProcesses resets its counters, context, heartbeat and channels)
+		re = lastRE
+		re.GlobalEnvironment, re.UseMonitor, re.ExecutionVersion, re.Typechecked = genv, j.Monitor, version(j.Mode), j.Typecheck
+	}
+	lastRE = re
 	var t *tracer
 	control := len(j.Sched) > 0 || len(j.Plan) > 0
 	if hooksOn && (j.Trace || control) {
@@ -280,6 +287,9 @@ func runJob(j Job) (res Result) {
 }
 
 var resultSink = func(Result) {}
+
+// the RuntimeEnvironment of the previous job of this driver process (Job.ReuseEnv)
+var lastRE *process.RuntimeEnvironment
 
 func main() {
 	redirectStdout()
